@@ -64,6 +64,28 @@ unsafe impl CastFrom<Bad> for dyn Probe {
     }
 }
 
+/// a zero-sized resource whose CastFrom impl returns the address of a static (also a different address)
+pub struct BadZst;
+pub static ELSEWHERE: ZstProbe = ZstProbe;
+pub struct ZstProbe;
+impl Probe for ZstProbe {
+    fn ident(&self) -> u32 {
+        99
+    }
+    fn count(&self) -> u64 {
+        0
+    }
+    fn bump(&mut self) {}
+    fn addr(&self) -> usize {
+        self as *const Self as usize
+    }
+}
+unsafe impl CastFrom<BadZst> for dyn Probe {
+    fn cast(_: *mut BadZst) -> *mut Self {
+        &ELSEWHERE as *const ZstProbe as *mut ZstProbe as *mut dyn Probe
+    }
+}
+
 #[derive(Clone, Debug, PartialEq)]
 pub enum MOp {
     Register(u8),
@@ -344,6 +366,22 @@ pub fn run(case: &MCase) -> Option<(&'static str, String)> {
                 let r = quiet(|| t2.iter(&w2).count());
                 if r.is_ok() {
                     return Some(("C17", format!("{}: a CastFrom impl that changes the address was accepted by iter (must be rejected by a panic)", what)));
+                }
+                // the same for a zero-sized resource type
+                let mut t3: MetaTable<dyn Probe> = MetaTable::new();
+                t3.register::<BadZst>();
+                let mut w3 = World::empty();
+                w3.insert(BadZst);
+                let r = quiet(|| {
+                    let g = w3.fetch::<BadZst>();
+                    t3.get(&*g as &dyn Resource).map(|p| p.ident())
+                });
+                if r.is_ok() {
+                    return Some(("C17", format!("{}: a CastFrom impl of a zero-sized type that changes the address was accepted by get (must be rejected by a panic)", what)));
+                }
+                let r = quiet(|| t3.iter(&w3).count());
+                if r.is_ok() {
+                    return Some(("C17", format!("{}: a CastFrom impl of a zero-sized type that changes the address was accepted by iter (must be rejected by a panic)", what)));
                 }
             }
         }
